@@ -28,6 +28,40 @@ ADOPT = [("C10", ["C10-e"], "the extra gradient is placed with the indices recor
 M = "gemclus.mlcl"
 
 
+def _both_orientations(test):
+    """(x == p and y == q) or (x == q and y == p) for two distinct pairs of operands, whatever their names; also inside any(... for ... in ...).
+    True / False (a recognisable test of another shape, e.g. one orientation only) / None (not recognised)"""
+    from ..pm import canon_node
+    t = canon_node(test)
+    if isinstance(t, ast.Call) and isinstance(t.func, ast.Name) and t.func.id == "any" and len(t.args) == 1 and isinstance(t.args[0], (ast.GeneratorExp, ast.ListComp)):
+        t = t.args[0].elt
+
+    def conj(e):
+        if isinstance(e, ast.BoolOp) and isinstance(e.op, ast.And) and len(e.values) == 2 and all(
+                isinstance(v, ast.Compare) and len(v.ops) == 1 and isinstance(v.ops[0], ast.Eq) for v in e.values):
+            return frozenset(frozenset([str(norm_src(v.left)), str(norm_src(v.comparators[0]))]) for v in e.values)
+        return None
+    if isinstance(t, ast.BoolOp) and isinstance(t.op, ast.Or):
+        cs = [conj(v) for v in t.values]
+        if any(c is None for c in cs):
+            return None
+        if len(cs) != 2:
+            return False
+        a, b = cs
+        syms = set().union(*a)
+        if len(a) != 2 or len(b) != 2 or len(syms) != 4 or set().union(*b) != syms:
+            return False
+        # there must be a split {x, y} | {p, q} of the four operands such that both conjunctions match x, y with p, q - in the two different ways
+        a1, a2 = [sorted(p_) for p_ in a]
+        for left in ({a1[0], a2[0]}, {a1[0], a2[1]}):
+            if all(len(p_ & left) == 1 for p_ in b) and a != b:
+                return True
+        return False
+    if conj(t) is not None:
+        return False        # one orientation only
+    return None
+
+
 def run(pm, ctx):
     u = pm.unit(M)
     ctx.rule("C14-a", "positions in the must-link graph, sample ids and batch rows are different index spaces", floor=10)
@@ -183,8 +217,12 @@ def run(pm, ctx):
     rs = [n for n in ast.walk(sf) if isinstance(n, ast.Raise)]
     if len(rs) == 1:
         conds = [norm_src(p.test) for p in _parents(rs[0]) if isinstance(p, ast.If)]
-        if conds and "pair_i" in conds[0] and "pair_j" in conds[0] and " or " in conds[0]:
+        tests = [p.test for p in _parents(rs[0]) if isinstance(p, ast.If)]
+        verdict = _both_orientations(tests[0]) if tests else None
+        if verdict is True:
             ctx.ok("C14-c", "_check_structural_constraint: raises when a cannot-link pair (either orientation) lies in one component")
+        elif verdict is None:
+            ctx.unrecognised("C14-c", "_check_structural_constraint: raise", f"contradiction test `{conds[0][:80] if conds else ''}` is not a disjunction of pairwise equalities")
         else:
             ctx.violation("C14-c", u.relpath, "_check_structural_constraint", conds[0] if conds else "raise", "the contradiction test does not compare both orientations of "
                           "the cannot-link pair", line=rs[0].lineno, site="_check_structural_constraint: raise")
